@@ -65,51 +65,7 @@ def run(ctx):
     r2 = ctx.rule("C11.R2", "in SenderSession::run, for an object session (transfer_fdt_only == false), every path from entry "
                             "or from a get_next() call to encoder.read()/new_alc_pkt passes the not-pending edge of "
                             "fdt.need_transfer_fdt()", "MPT under assumption")
-    f = prog.fn(SESSION + "::run")
-    ctx.analysed(f.path)
-    flow = Flow(f.body)
-
-    def contradicts(fact):
-        (a, t) = fact
-        if a[0] == "true" and show(a[1]).endswith("self.transfer_fdt_only") and t is True:
-            return False
-        return None
-
-    flow.assume(contradicts)
-
-    def gate(n):
-        if n[0] != "e":
-            return False
-        for (a, t) in flow.edge_facts(n):
-            if a[0] == "true" and not t and any(c[0] == "call" and c[1].endswith("Fdt::need_transfer_fdt") for c in walk(a[1])):
-                return True
-        return False
-
-    emit = call_sites(f, lambda p, c: p.endswith("BlockEncoder::read") or p.endswith("alc::new_alc_pkt"))
-    starts = [("entry", 0)] + [("after get_next", s.term.target) for s in call_sites(f, lambda p, c: p.endswith("SenderSession::get_next"))]
-    if len(starts) < 2:
-        raise model.AnchorMissing("SenderSession::run does not call get_next")
-    reach = flow.reachable_nodes()
-    for s in emit:
-        if ("b", s.bb) not in reach:
-            continue
-        for (nm, st) in starts:
-            ok, w = flow.must_pass(st, [s.bb], gate)
-            key = "run: %s -> %s" % (nm, model.short_callee(s.term.callee_path()))
-            if ok:
-                r2.ok(key, "passes need_transfer_fdt() == false", s.loc)
-            else:
-                r2.violation(key, "an object session can reach %s from %s without the FDT-pending gate: %s" % (
-                    model.short_callee(s.term.callee_path()), nm, path_text(f.body, w)), s.loc)
-    r2.floor(4, "2 emission sites x 2 starts")
-    # need_transfer_fdt itself: true iff the FDT queue is non-empty
-    g = prog.fn(FDT + "::need_transfer_fdt")
-    rets = ret_assign_blocks(g.body, lambda e: True)
-    txt = "; ".join(show(e, 100) for _, e in rets)
-    if len(rets) == 1 and re.search(r"!\(?VecDeque::is_empty\(&self\.fdt_transfer_queue\)", txt):
-        r2.ok("need_transfer_fdt definition", txt, loc(g.sp))
-    else:
-        r2.violation("need_transfer_fdt definition", "need_transfer_fdt returns %s; expected !self.fdt_transfer_queue.is_empty()" % txt, loc(g.sp))
+    fdt_pending_gate(ctx, r2)
 
     # ---- R3 ----------------------------------------------------------------------------
     r3 = ctx.rule("C11.R3", "FileDesc::should_transfer_now can return true only past `mode != FullFDT` or `is_published()`; "
@@ -234,3 +190,54 @@ def run(ctx):
             r4.ok("publish Ok => queued", "", loc(h.sp))
         else:
             r4.violation("publish Ok => queued", "Fdt::publish can return Ok without queueing an FDT instance", loc(h.sp))
+
+
+def fdt_pending_gate(ctx, r2):
+    """every object session yields while an FDT instance is pending (shared by C11.R2 and C13.R5)"""
+    prog = ctx.prog
+    f = prog.fn(SESSION + "::run")
+    ctx.analysed(f.path)
+    flow = Flow(f.body)
+
+    def contradicts(fact):
+        (a, t) = fact
+        if a[0] == "true" and show(a[1]).endswith("self.transfer_fdt_only") and t is True:
+            return False
+        return None
+
+    flow.assume(contradicts)
+
+    def gate(n):
+        if n[0] != "e":
+            return False
+        for (a, t) in flow.edge_facts(n):
+            if a[0] == "true" and not t and any(c[0] == "call" and c[1].endswith("Fdt::need_transfer_fdt") for c in walk(a[1])):
+                return True
+        return False
+
+    emit = call_sites(f, lambda p, c: p.endswith("BlockEncoder::read") or p.endswith("alc::new_alc_pkt"))
+    starts = [("entry", 0)] + [("after get_next", s.term.target) for s in call_sites(f, lambda p, c: p.endswith("SenderSession::get_next"))]
+    if len(starts) < 2:
+        raise model.AnchorMissing("SenderSession::run does not call get_next")
+    reach = flow.reachable_nodes()
+    for s in emit:
+        if ("b", s.bb) not in reach:
+            continue
+        for (nm, st) in starts:
+            ok, w = flow.must_pass(st, [s.bb], gate)
+            key = "run: %s -> %s" % (nm, model.short_callee(s.term.callee_path()))
+            if ok:
+                r2.ok(key, "passes need_transfer_fdt() == false", s.loc)
+            else:
+                r2.violation(key, "an object session can reach %s from %s without the FDT-pending gate: %s" % (
+                    model.short_callee(s.term.callee_path()), nm, path_text(f.body, w)), s.loc)
+    r2.floor(4, "2 emission sites x 2 starts")
+    # need_transfer_fdt itself: true iff the FDT queue is non-empty
+    g = prog.fn(FDT + "::need_transfer_fdt")
+    rets = ret_assign_blocks(g.body, lambda e: True)
+    txt = "; ".join(show(e, 100) for _, e in rets)
+    if len(rets) == 1 and re.search(r"!\(?VecDeque::is_empty\(&self\.fdt_transfer_queue\)", txt):
+        r2.ok("need_transfer_fdt definition", txt, loc(g.sp))
+    else:
+        r2.violation("need_transfer_fdt definition", "need_transfer_fdt returns %s; expected !self.fdt_transfer_queue.is_empty()" % txt, loc(g.sp))
+
